@@ -47,6 +47,8 @@ TRUSTED = [
     "the spy (harness/props/c19.py:_install_spies) replaces names in the importing modules' namespaces and in the "
     "extension modules' own dictionaries; it reads shapes/strides/values of the arguments before forwarding them unchanged",
     "grey_reconstruction_loop: the padding geometry (image shape, padding) is read from the caller's frame locals",
+    "the ASan objects are built with -DNDEBUG like the shipped ones (stage.ASAN_FLAGS extended at run time); an abort of the "
+    "library's own assert() and a hang in a fork-isolated call are not memory errors (counted)",
     "AddressSanitizer (gcc libasan) with detect_leaks=0 (CPython itself 'leaks'); leaks are OBSERVED separately, not "
     "proved: every kernel class is called 2000 times (skeletonize 133) in one process against the plain build and the "
     "growth of glibc's mallinfo2 bytes-in-use must stay below 8 bytes per call (unchanged tree: 0-300 bytes in total); "
@@ -56,6 +58,13 @@ TRUSTED = [
     "augmenting_row_reduction model: float comparisons are an oracle restricted to what finite costs can produce",
 ]
 ASSUMPTIONS = [
+    "KNOWN FINDINGS inside the quantifier, each attributed only by the owning property's rule (ids <Fxx>/C19): F22 convex_hull_ijv "
+    "coordinates > 46340 (int32 turn test wraps, a label can overrun its rows); F23 median_filter with columns + 2*radius + 1 >= "
+    "1573248 (32-bit scratch size wraps); F26 emd_hat_int32 on zero-length histograms with a flow type; F20 (next line). The "
+    "index-safety theorems apply to the compiled code inside these input bounds only",
+    "other narrow C types (int32 / uint32 flat indices, int strides, unsigned int heap capacity * width): they wrap only from 2^30 "
+    "(grey_reconstruction: 2 planes, int32 links) / 2^31 pixels, rows or triples on, i.e. > 16 GB of input - treated as a resource "
+    "bound outside the quantifier; uint16 histogram counts wrap VALUES (window > 65535 pixels), never indices (table in reports/C19.md)",
     "KNOWN FINDING F20 (inside the quantifier): memory safety of _lapjv.pyx augment fails on maximally sparse problems with "
     "forced expensive pairs; C01's generator class `forced-expensive` and corpus/C01/a_f20_sentinel.json are part of C19's "
     "streams (plain build, ASan build, boundary monitor), each such case fork-isolated; attribution by C01's two model variants",
@@ -68,6 +77,19 @@ ASSUMPTIONS = [
 EXHAUSTIVE = {"quick": False, "thorough": False}
 
 VERIF = os.path.dirname(os.path.dirname(os.path.dirname(os.path.abspath(__file__))))
+
+
+def _asan_like_shipped():
+    """harness/stage.py builds the plain objects with -DNDEBUG but the address-sanitised ones without it, so the C++
+    library's own assert()s (min_cost_flow.hpp) abort in the ASan build on inputs where the shipped kernels run on.  C19 is
+    about the shipped kernels: the ASan objects get the same -DNDEBUG (run-time change of the flag list of the staging
+    module, not of its file; the build cache is keyed by the flags)."""
+    from harness import stage as stg
+    if "-DNDEBUG" not in stg.ASAN_FLAGS:
+        stg.ASAN_FLAGS = list(stg.ASAN_FLAGS) + ["-DNDEBUG"]
+
+
+_asan_like_shipped()
 MAX_ELEMS = 40000          # arrays above this size are not serialised (counted)
 MAX_CALLS = 8              # recorded calls per kernel per case (all are counted)
 
@@ -104,14 +126,25 @@ KERNEL_STATUS = {
     "_all_connected_components": ("Full: C19_all_connected_components_safe", "kernel_pre_acc", ""),
     "fill_labeled_holes_loop": ("Full: C19_fill_labeled_holes_loop_safe", "kernel_pre_fill", ""),
     "trace_outlines": ("Full: C19_trace_outlines_safe", "kernel_pre_trace", ""),
-    "convex_hull_ijv": ("Full for the in-place WRITES: C19_convex_hull_write_bound (C02's model + C02_hull_no_overflow)",
-                        "kernel_pre_hull", "the reads of the buffer walk (C02's model uses total accessors)"),
+    "convex_hull_ijv": ("Full for the in-place WRITES in exact arithmetic: C19_convex_hull_write_bound (C02's model + "
+                        "C02_hull_no_overflow); for the compiled int32 turn test: C19_convex_hull_label_write_bound_as_written, "
+                        "INPUT BOUND coordinates <= 46340 (M*M < 2^31, C02_wrap_transfer). Beyond it: known finding F22 (a "
+                        "repeated vertex overruns the label's rows; C19_reexp_C02_convex_wrap_refuted)",
+                        "kernel_pre_hull", "the reads of the buffer walk (C02's model uses total accessors); F22 class "
+                        "fork-isolated, attributed by C02's as-written model"),
     "median_filter": ("Full, piecewise: C19_median_model_safe (C07's invariant carries every array size; column step), "
                       "C19_median_pre_indices, C19_median_hist_indices, C19_median_pixel_offset",
-                      "kernel_pre_median", "no single end-to-end bounds-checked model; malloc failure path"),
+                      "kernel_pre_median; the theorems speak about the real scratch block for INPUT BOUND columns + 2*radius + 1 "
+                      "< 1573248 (C19_reexp_C07_alloc_size_exact_below); from there on: known finding F23 (32-bit `unsigned int "
+                      "memory_size` wraps, C19_reexp_C07_alloc_size_wrap_refuted)",
+                      "no single end-to-end bounds-checked model; malloc failure path (memset before the NULL check); F23 "
+                      "class fork-isolated, attributed by C07's alloc_wraps"),
     "emd_hat_int32": ("Full for the array copies: C19_emd_pre_copies_safe; heap / position table of min_cost_flow.hpp: "
                       "C10's line-level theorems re-exported (C19_reexp_C10_heap_*)", "kernel_pre_emd",
-                      "the other C++ containers of FastEMD (std::vector / std::list indexing in emd_hat_impl.hpp, flow_utils.hpp)"),
+                      "the other C++ containers of FastEMD (std::vector / std::list indexing in emd_hat_impl.hpp, flow_utils.hpp); "
+                      "INPUT BOUND non-empty histograms: zero-length p, q with a flow type = known finding F26 (vf[0] of an empty "
+                      "vector), fork-isolated, attributed by len(p) == len(q) == 0; C10's int32-overflow classes (F21 / F25: hangs, "
+                      "library assert aborts) are counted as 'no memory error'"),
 }
 
 
@@ -477,6 +510,29 @@ def _install_spies():
 
 
 # =========================================================================================== generator
+HULL_EXACT_BOUND = 46340       # C02_wrap_transfer: the int32 cross product is exact up to this coordinate
+
+
+def _special_class(owner, c):
+    """cases that are run fork-isolated: the input classes of the known memory-safety findings (syntactic class only;
+    attribution applies the owning property's rule)"""
+    if not isinstance(c, dict):
+        return None
+    if owner == "c01" and c.get("fn") == "lap" and (c.get("f20") or c.get("pat") == "forced-expensive"):
+        return "F20"
+    if owner == "c07" and c.get("fn") == "wide":
+        return "F23"
+    if owner == "c10" and (c.get("fork") or c.get("intmax")):
+        return "F26" if (len(c.get("p", [1])) == 0 and len(c.get("q", [1])) == 0) else "C10-overflow-class"
+    if owner == "c02" and c.get("fn") == "ijv" and c.get("ijv"):
+        try:
+            if max(max(int(r[0]), int(r[1])) for r in c["ijv"]) > HULL_EXACT_BOUND:
+                return "F22"
+        except Exception:       # noqa
+            return None
+    return None
+
+
 def _sub_ctx(ctx, owner, tier):
     """a real core.Ctx for the owner's generate() (some generators call ctx.run_model with the owner's
     extracted program), with its own random stream derived from this run's seed"""
@@ -508,6 +564,13 @@ def _owner_cases(ctx, name, want, tier):
     k = max(1, want // 5)
     pick = set(order[:k].tolist()) | set(order[-k:].tolist())          # extremes: smallest / largest inputs
     pick |= set(range(min(n, k)))                                      # the owner's corpus / edge cases come first
+    spec = [i for i, c in enumerate(cases) if _special_class(name, c)]
+    if name != "c01":       # classes of the known findings F22 / F23 / F26 (and C10's fork-isolated overflow classes)
+        step = max(1, len(spec) // 45)
+        pick |= set(spec[::step][:45])
+        if name == "c10":       # the zero-length instance (F26) and a few of the overflow classes (they may hang: F21 / F25)
+            pick -= set(spec)
+            pick |= set(i for i in spec if cases[i].get("kind") == "empty") | set(spec[:: max(1, len(spec) // 6)][:6])
     if name == "c01":       # finding F20: every case of the class (sentinel model starves), and a share of the generator
         f20 = [i for i, c in enumerate(cases) if isinstance(c, dict) and c.get("f20")]         # class that reaches it
         fx = [i for i, c in enumerate(cases) if isinstance(c, dict) and c.get("pat") == "forced-expensive"]
@@ -663,11 +726,20 @@ def _forked_rec(fn, arg, limit=25):
     implementation becomes an outcome of this case (finding F20: undefined behaviour after an empty rebuild of scan)"""
     import select
     import signal
+    import tempfile
     rd, wr = os.pipe()
+    errf = tempfile.NamedTemporaryFile(prefix="c19child.", suffix=".err", delete=False)
+    errname = errf.name
+    errf.close()
     pid = os.fork()
     if pid == 0:
         try:
             os.close(rd)
+            try:
+                fd = os.open(errname, os.O_WRONLY | os.O_TRUNC)
+                os.dup2(fd, 2)
+            except OSError:
+                pass
             _Rec.calls, _Rec.counts = [], {}
             st = "ok"
             try:
@@ -699,13 +771,28 @@ def _forked_rec(fn, arg, limit=25):
         buf += chunk
     os.close(rd)
     _, status = os.waitpid(pid, 0)
+    try:
+        with open(errname, errors="replace") as f:
+            errtxt = f.read()[-4000:]
+        os.remove(errname)
+    except OSError:
+        errtxt = ""
     if buf and not hang:
         try:
             return json.loads(buf.decode())
         except ValueError:
             pass
     sig = status & 0x7f
-    what = ("hang (killed after %d s)" % limit) if hang else ("signal %d" % sig) if sig else "exit %d without a result" % (status >> 8)
+    alines = [l for l in errtxt.splitlines() if "Assertion" in l and "failed" in l]
+    if (not hang and alines and "AddressSanitizer" not in errtxt and "malloc" not in alines[-1]
+            and any(t in alines[-1] for t in (".hpp", "centrosome", "_fastemd", "_filter", "_lapjv", "_convex_hull", "_propagate"))):
+        # an assert() of the library itself fired (abort): a loud rejection, not a memory error (glibc's own heap
+        # consistency assertions - malloc.c - are NOT rejections: they stay crashes)
+        line = alines[-1].strip()[:300]
+        return {"status": "reject:library assertion abort: " + line, "calls": [], "counts": {"fork-isolated": 1}}
+    if hang:        # a call that does not return is not a memory-safety failure (C10's F21 / F25, UB after F20): counted
+        return {"status": "hang:killed after %d s in a forked child" % limit, "calls": [], "counts": {"fork-isolated": 1}}
+    what = ("signal %d" % sig) if sig else "exit %d without a result" % (status >> 8)
     detail = ""
     m = [x for x in os.environ.get("ASAN_OPTIONS", "").split(":") if x.startswith("log_path=")]
     if m:
@@ -717,7 +804,9 @@ def _forked_rec(fn, arg, limit=25):
             head = [l.strip() for l in txt.splitlines() if "ERROR: AddressSanitizer" in l][:1]
             frames = [l.strip() for l in txt.splitlines() if l.strip().startswith("#")][:6]
             detail = " | ".join(head + frames)[:900]
-    return {"status": "crash:forked child of lapjv: %s %s" % (what, detail), "calls": [], "counts": {"lapjv(fork-isolated)": 1}}
+    if not detail and errtxt.strip():
+        detail = errtxt.strip().splitlines()[-1][:300]
+    return {"status": "crash:forked child: %s %s" % (what, detail), "calls": [], "counts": {"fork-isolated": 1}}
 
 
 def _owner_impl(name):
@@ -735,11 +824,19 @@ def impl(case):
     try:
         if owner == "own":
             _own_impl(case["case"])
-        elif owner == "c01" and isinstance(case["case"], dict) and case["case"].get("fn") == "lap" and (
-                case["case"].get("f20") or case["case"].get("pat") == "forced-expensive"):
-            # finding F20 class: fork-isolated (a crash is an outcome), the spy records inside the child
-            mod = importlib.import_module("harness.props.c01")
-            r = _forked_rec(mod._impl_lap, case["case"])
+        elif _special_class(owner, case["case"]):
+            # classes of the known findings: fork-isolated (a crash is an outcome), the spy records inside the child
+            mod = importlib.import_module("harness.props." + owner)
+            if owner == "c01":
+                fn, limit = mod._impl_lap, 25
+            elif owner == "c07":
+                fn, limit = mod._wide_child, 240            # 1.5 million columns: 4.3 GB of scratch, seconds (minutes under ASan)
+            elif owner == "c10":
+                os.environ["C10_NO_FORK"] = "1"             # c10.impl would start its own subprocess: run it in OUR child
+                fn, limit = mod.impl, 5
+            else:
+                fn, limit = mod.impl, 25
+            r = _forked_rec(fn, case["case"], limit)
             _Rec.calls, _Rec.counts = None, None
             return r
         else:
@@ -953,41 +1050,90 @@ def _crash_text(o):
     return "%s %s" % (o["crash"], head or d.strip()[-300:])
 
 
-F20_ID = "F20/C19"      # known_findings.json lists F20 under property C01 ("also": C19); core filters by property and
-                        # drops duplicate ids, so C19's fragment carries its own id
+KF_IDS = {"F20": "F20/C19", "F22": "F22/C19", "F23": "F23/C19", "F26": "F26/C19"}
+F20_ID = KF_IDS["F20"]  # known_findings.json lists these under the owning property ("also": C19); core filters by property
+                        # and drops duplicate ids, so C19's fragment carries its own ids
+KF_TEXT = {
+    "F20": "F20-class input (C01's faithful sentinel model starves in augment, the true-infinity reference model returns a matching): ",
+    "F23": "F23-class input (median_filter on a very wide image: the 32-bit scratch size of allocate_histograms may wrap): ",
+    "F26": "F26-class input (emd_hat_int32 on zero-length histograms with a flow type): ",
+    "F22": "F22-class input (convex_hull_ijv with coordinates above 46340: the int32 turn test wraps): ",
+}
+
+
+def _kf_class(case):
+    if not (isinstance(case, dict) and isinstance(case.get("case"), dict)):
+        return None
+    k = _special_class(case.get("owner"), case["case"])
+    if k == "F20" and not case["case"].get("f20"):
+        return None
+    return k if k in KF_TEXT else None
 
 
 def _is_f20_case(case):
-    return (isinstance(case, dict) and case.get("owner") == "c01" and isinstance(case.get("case"), dict)
-            and case["case"].get("fn") == "lap" and bool(case["case"].get("f20")))
+    return _kf_class(case) == "F20"
 
 
 def _f20_prefix(case):
-    return ("F20-class input (C01's faithful sentinel model starves in augment, the true-infinity reference model "
-            "returns a matching): ") if _is_f20_case(case) else ""
+    k = _kf_class(case)
+    return KF_TEXT[k] if k else ""
+
+
+_OWNER_CTX = {}
+
+
+def _owner_model(ctx, owner, entry, args):
+    """run an extracted entry of the OWNING property's model (attribution is by the owner's rule)"""
+    if owner not in _OWNER_CTX:
+        _OWNER_CTX[owner] = _sub_ctx(ctx, importlib.import_module("harness.props." + owner), ctx.tier)
+    return _OWNER_CTX[owner].run_model(entry, args)
 
 
 def attribute(ctx, case, out, clause):
-    """F20 iff the input is in the F20 class (flag set by C01's generator from the two model variants) AND the failure is
-    a crash / ASan report of the fork-isolated lapjv call, whose ASan stack - when there is one - lies in augment.
-    Everything else (other kernels, other inputs, a false kernel_pre) stays a VIOLATION."""
+    """A failure is a KNOWN finding only by the owning property's rule, and only when it is a crash / ASan report of the
+    fork-isolated call (never a false kernel_pre):
+      F20 iff C01's generator flagged the input (sentinel model starves, true-infinity model returns) and the ASan stack,
+          when there is one, lies in augment;
+      F23 iff C07's extracted alloc_wraps holds for (columns, radius) of the call;
+      F26 iff len(p) == len(q) == 0 (a flow type is among the variants the owner's impl calls);
+      F22 iff C02's as-written (int32-wrapped) hull model overruns a label's rows on the input while the exact model does not.
+    Everything else stays a VIOLATION."""
     import re
-    if not (_is_f20_case(case) and isinstance(clause, str) and clause.startswith("F20-class input")):
+    k = _kf_class(case)
+    if not (k and isinstance(clause, str) and clause.startswith(KF_TEXT[k])) or "kernel_pre_" in clause:
         return None
-    if "kernel_pre_" in clause:
+    if "crash" not in clause and "AddressSanitizer" not in clause:
         return None
     frames = re.findall(r"#\d+ [^|]*", clause)
-    if frames:
-        pyx = [f for f in frames if "_lapjv" in f or "lapjv_" in f]
-        if not pyx or not re.search(r"lapjv_\d+augment(?!ing)", pyx[0]):
-            return None
-    return F20_ID
+    inner = case["case"]
+    try:
+        if k == "F20":
+            if frames:
+                pyx = [f for f in frames if "_lapjv" in f or "lapjv_" in f]
+                if not pyx or not re.search(r"lapjv_\d+augment(?!ing)", pyx[0]):
+                    return None
+            return KF_IDS[k]
+        if k == "F23":
+            a = _owner_model(ctx, "c07", "entry_alloc", [[inner["W"], inner["radius"]]])[0]
+            return KF_IDS[k] if (isinstance(a, list) and len(a) == 3 and a[2] == 1) else None
+        if k == "F26":
+            return KF_IDS[k] if (len(inner["p"]) == 0 and len(inner["q"]) == 0) else None
+        if k == "F22":
+            w = _owner_model(ctx, "c02", "entry_hull_ijv_w", [[inner["ijv"], inner["idx"]]])[0]
+            e = _owner_model(ctx, "c02", "entry_hull_ijv", [[inner["ijv"], inner["idx"]]])[0]
+            over_w = isinstance(w, list) and len(w) >= 3 and w[2] == 1
+            over_e = isinstance(e, list) and len(e) >= 3 and e[2] == 1
+            return KF_IDS[k] if (over_w and not over_e) else None
+    except Exception as ex:      # noqa: no attribution without the owner's model
+        ctx.note("attribution of %s failed: %r" % (k, ex))
+    return None
 
 
 def reproduce_finding(ctx, finding):
-    if finding.get("id") != F20_ID:
+    if finding.get("id") not in KF_IDS.values():
         return False
-    case = {"owner": "c01", "case": finding["witness"]}
+    owner = finding.get("owner") or {"F20/C19": "c01", "F22/C19": "c02", "F23/C19": "c07", "F26/C19": "c10"}[finding["id"]]
+    case = {"owner": owner, "case": finding["witness"]}
     o = ctx.run_impl([case])[0]
     if isinstance(o, dict) and ("crash" in o or str(o.get("status", "")).startswith("crash:")):
         return True
@@ -1036,6 +1182,11 @@ def check(ctx, cases, outs):
         if "exc" in o:
             verdicts[ci] = "C19 harness error in impl: %s %s" % (o["exc"], o.get("msg", ""))
             continue
+        if str(o.get("status", "")).startswith(("hang:", "reject:")):
+            ctx.count("owner's known-finding class, no memory error (%s in the forked child): %s" % (
+                "hang" if o["status"].startswith("hang:") else "library assertion abort",
+                _special_class(cases[ci]["owner"], cases[ci]["case"])))
+            continue
         if str(o.get("status", "")).startswith("crash:"):
             verdicts[ci] = _f20_prefix(cases[ci]) + "crash in a fork-isolated child (%s build): %s" % (
                 "address-sanitised" if ctx.stage_info.get("asan") else "plain -O2", o["status"][6:900])
@@ -1059,8 +1210,8 @@ def check(ctx, cases, outs):
         if len(cases) <= 80:
             sel = list(range(len(cases)))
         else:
-            own = [i for i, c in enumerate(cases) if c["owner"] == "own"]
-            rest = [i for i, c in enumerate(cases) if c["owner"] != "own"]
+            own = [i for i, c in enumerate(cases) if c["owner"] == "own" or _special_class(c["owner"], c["case"])]
+            rest = [i for i, c in enumerate(cases) if not (c["owner"] == "own" or _special_class(c["owner"], c["case"]))]
             k = ctx.n(700, 4000)
             pick = ctx.rng.choice(len(rest), size=min(len(rest), k), replace=False) if rest else []
             sel = own + sorted(rest[int(i)] for i in pick)
@@ -1119,6 +1270,11 @@ def check(ctx, cases, outs):
         ctx.timings["asan_run"] = ctx.timings.get("asan_run", 0) + asan_box.get("t", 0)
         ctx.count("asan_cases", len(sel))
         for i, o in zip(sel, asan_box["outs"]):
+            if isinstance(o, dict) and str(o.get("status", "")).startswith(("hang:", "reject:")):
+                ctx.count("ASan pass: owner's known-finding class, no memory error (%s): %s" % (
+                    "hang" if o["status"].startswith("hang:") else "library assertion abort",
+                    _special_class(cases[i]["owner"], cases[i]["case"])))
+                continue
             v = _asan_verdict(o)
             if v and verdicts[i] is None:
                 verdicts[i] = _f20_prefix(cases[i]) + v
@@ -1201,7 +1357,10 @@ MANIFEST = {
                    "every recorded kernel call; the behaviour of the compiled object is observed (address-sanitised "
                    "build over the generators of C01-C08, C10, C15), not proved"),
     "level_note": ("not expressible in the model: malloc/realloc failure, int32 wrap of flat indices beyond 2^31 "
-                   "elements, the C++ containers of FastEMD outside the heap, Cython buffer unpacking; not proved: that "
+                   "elements, the C++ containers of FastEMD outside the heap, Cython buffer unpacking. INPUT BOUNDS under which "
+                   "the theorems speak about the compiled code: hull coordinates <= 46340 (beyond: F22), median columns + "
+                   "2*radius + 1 < 1573248 (beyond: F23), non-empty EMD histograms (F26), lapjv inputs on which the sentinel "
+                   "model does not starve (F20); flat sizes below 2^30 / 2^31 elements. Not proved: that "
                    "augment's search always returns - it is FALSE for the kernel as written: known finding F20 (sentinel "
                    "inf = sum(c)+1 too small, p_scan[low] read past up, segfault inside the quantifier; "
                    "C19_augment_scan_nonempty_refuted), propagate's pixel loop, the reads of "
